@@ -747,6 +747,48 @@ def c10_oracle(cfg, hist):
     return None
 
 
+def basic_line(pkt: bytes, t_ms: int) -> str:
+    """the frame as a canboat plain line with the time stamp t_ms milliseconds after 2020-01-01 00:00:00"""
+    pgn, src, dst, data = pkt_fields(pkt)
+    prio = (int.from_bytes(pkt[1:5], "big") >> 26) & 7
+    ts = datetime(2020, 1, 1) + timedelta(milliseconds=t_ms)
+    return "%s,%d,%d,%d,%d,%d,%s" % (ts.strftime("%Y-%m-%d-%H:%M:%S.") + "%03d" % (ts.microsecond // 1000), prio, pgn, src, dst,
+                                     len(data), ",".join("%02x" % b for b in data))
+
+
+def c10_timed_oracle(cfg, hist, times):
+    """the same comparison with the frames delivered as time-stamped text lines (one CAN frame per line), the stamps
+    `times` (ms) growing by anything between a millisecond and a minute: what a filter permits does not depend on when the
+    frames arrive"""
+    try:
+        f = make_decoder(cfg)
+    except Exception:  # noqa: BLE001
+        return None
+    u = make_decoder({**cfg, "ex": [], "inc": []})
+    past = datetime.now() - timedelta(hours=1)
+
+    def obs(dec, line):
+        dec.started_at = past
+        try:
+            r = dec.decode_basic_string(line, False)
+        except Exception:  # noqa: BLE001
+            return None
+        if r is None:
+            return None
+        return (r.PGN, r.id, r.source, r.destination, r.priority, iso_tuple(r.source_iso_name), repr(r.fields))
+    for i, ((pkt, _), t) in enumerate(zip(hist, times)):
+        if not pkt_fields(pkt)[3]:
+            continue                    # a frame without data bytes has no plain-text form
+        line = basic_line(pkt, t)
+        a, b = obs(f, line), obs(u, line)
+        exp = b if (b is not None and permitted(cfg, b[0], b[1])) else None
+        if a != exp:
+            d = "leak" if (a is not None and exp is None) else ("lost" if a is None else "content")
+            return i, d, (f"call {i} (time-stamped lines, stamp {t} ms): unfiltered decoder returns {b and b[:2]}, the filter permits "
+                          f"{exp and exp[:2]}, filtered decoder returns {a and a[:2]}")
+    return None
+
+
 def cfg_shape(cfg):
     mode = "exclude" if cfg["ex"] else ("include" if cfg["inc"] else "none")
     l = cfg["ex"] or cfg["inc"]
@@ -813,6 +855,32 @@ def search(ctx):
         if w and w["key"] not in seen:
             seen.add(w["key"])
             out.append(w)
+    # the histories again as time-stamped text lines with gaps of up to a minute between frames
+    for cfg, hist in cands[:ctx.n(150, 1500)]:
+        if not hist:
+            continue
+        t, times = 0, []
+        for _ in hist:
+            t += rng.choice([1, 5, 20, 20, 100, 700, 2000, 11000, 30000, 61000])
+            times.append(t)
+        r = c10_timed_oracle(cfg, hist, times)
+        if r and "C10:timed:" + r[1] not in seen:
+            seen.add("C10:timed:" + r[1])
+            keep = [True] * len(hist)
+            for k in range(len(hist)):               # drop frames that are not needed (the stamps of the others stay)
+                if k == r[0]:
+                    continue
+                keep[k] = False
+                hh = [h_ for h_, kp in zip(hist, keep) if kp]
+                tt = [t_ for t_, kp in zip(times, keep) if kp]
+                r2 = c10_timed_oracle(cfg, hh, tt)
+                if not (r2 and r2[1] == r[1]):
+                    keep[k] = True
+            hh = [h_ for h_, kp in zip(hist, keep) if kp]
+            tt = [t_ for t_, kp in zip(times, keep) if kp]
+            r2 = c10_timed_oracle(cfg, hh, tt) or r
+            out.append({"key": "C10:timed:" + r[1], "kind": "c10-timed", "what": r2[2] + f" (filter ex={cfg['ex']} inc={cfg['inc']})",
+                        "times": tt, **case_json(cfg, hh)})
     return out
 
 
@@ -860,6 +928,11 @@ def variant_cases(ctx, rng):
 
 def replay(ctx, data):
     w = data.get("witness", data)
+    if w.get("kind") == "c10-timed":
+        r = c10_timed_oracle(cfg_unjson(w["config"]), hist_unjson(w["history"]), w["times"])
+        print("expected: filtered output = the permitted part of the unfiltered output, whenever the frames arrive")
+        print("observed:", r[2] if r else "property holds on this input")
+        return r is not None
     if w.get("kind") != "c10":
         print("observed: not a C10 history witness")
         return False
